@@ -4,6 +4,7 @@ import (
 	"bytes"
 	"context"
 	"encoding/json"
+	"errors"
 	"fmt"
 	"log/slog"
 	"os"
@@ -31,28 +32,52 @@ type treeVec struct {
 		N     int   `json:"n"` // how many of attrs are the record's own
 		Err   int   `json:"err"`
 		Attrs []int `json:"attrs"`
-	} `json:"out"` // predicted line of every log step of the path
-	Lvls []int `json:"lvls"` // probe levels
-	Err  []int `json:"err"`  // predicted severity = ERROR for each probe level
-	En   []int `json:"en"`   // predicted Enabled for each probe level
+	} `json:"out"`
+	Recs [][]int `json:"recs"` // attribute ids of the records the path creates, in order
+	Rets []int   `json:"rets"` // how each Handle call of the path ends: 0 line, 1 the writer's error, 3 the writer's panic // predicted line of every log step of the path
+	Lvls []int   `json:"lvls"` // probe levels
+	Err  []int   `json:"err"`  // predicted severity = ERROR for each probe level
+	En   []int   `json:"en"`   // predicted Enabled for each probe level
 }
 
 // seqWriter collects what a single goroutine writes.
 type seqWriter struct {
 	buf    []byte
 	writes int
+	next   int // what the next Write does (faultNone, faultErr, ...); consumed by it
 }
 
 func (w *seqWriter) Write(p []byte) (int, error) {
-	w.buf = append(w.buf, p...)
 	w.writes++
+	k := w.next
+	w.next = faultNone
+	switch k {
+	case faultErr:
+		return 0, errInjected
+	case faultShort:
+		return len(p) / 2, errInjected
+	case faultPanic:
+		panic(panicInjected)
+	}
+	w.buf = append(w.buf, p...)
 	return len(p), nil
 }
+
+// errWedged: a Handle call of a vector did not return; the vector is re-run
+// before anything is concluded.
+type errWedged struct{ where, state string }
+
+func (e errWedged) Error() string { return "call did not return: " + e.where + " (" + e.state + ")" }
+
+// wedgeLimit is how long a Handle call may take after a writer fault.
+const wedgeLimit = 10 * time.Second
+
+var wedgeConfirmed atomic.Bool
 
 func (w *seqWriter) reset() { w.buf, w.writes = w.buf[:0], 0 }
 
 type treeStats struct {
-	vectors, handles, enabled, groupPanics, groupSupported, derives atomic.Int64
+	vectors, handles, enabled, groupPanics, groupSupported, derives, skipped atomic.Int64
 }
 
 func opsKey(ops [][]int) string {
@@ -72,6 +97,8 @@ func opsKey(ops [][]int) string {
 			fmt.Fprintf(&b, "/%v", o[4:])
 		case 5:
 			fmt.Fprintf(&b, "R%d<-rec%d", o[1], o[2])
+		case 6:
+			fmt.Fprintf(&b, "W!%s", [...]string{"ok", "err", "short", "panic"}[o[1]&3])
 		case 3:
 			fmt.Fprintf(&b, "G%d", o[1])
 		}
@@ -135,10 +162,43 @@ func replayOne(res *vh.Result, st *treeStats, no int, raw []byte, v *treeVec, sa
 		return liveRec{rs: rs, val: rs.build(nil), ids: ids}
 	}
 	// handle gives the record value to handler h and compares the line.
-	handle := func(h int, lr liveRec, wantErr bool, what string) {
+	hasFaults := false
+	for _, op := range v.Ops {
+		if op[0] == 6 {
+			hasFaults = true
+			if op[1] == faultPanic && wedgeConfirmed.Load() {
+				st.vectors.Add(1)
+				st.skipped.Add(1)
+				return nil // already established; every such vector would cost 3 x 10 s
+			}
+		}
+	}
+	stop := false
+	errSeen := false // the writer has returned an error to this handler tree
+	var wedged *errWedged
+	var handleR func(h int, lr liveRec, wantErr bool, what string, want int)
+	handle := func(h int, lr liveRec, wantErr bool, what string) { handleR(h, lr, wantErr, what, 0) }
+	// handleR: want = 0 the line must appear, faultErr/faultShort Handle must
+	// return the writer's error, faultPanic the writer's panic must reach the
+	// caller (who recovers it, as a server does per request).
+	handleR = func(h int, lr liveRec, wantErr bool, what string, want int) {
+		if stop {
+			return
+		}
 		w.reset()
+		armedBefore := w.next
 		var herr error
-		pv, panicked := vh.Try(func() { herr = hs[h].Handle(ctx, lr.val) })
+		var pv any
+		var panicked bool
+		call := func() { pv, panicked = vh.Try(func() { herr = hs[h].Handle(ctx, lr.val) }) }
+		if hasFaults {
+			if ok, state := callWithDeadline(wedgeLimit, call); !ok {
+				wedged, stop = &errWedged{where: fmt.Sprintf("%s h=%d", what, h), state: state}, true
+				return
+			}
+		} else {
+			call()
+		}
 		st.handles.Add(1)
 		wantMsg, rerr := ref.line(lr.rs, accC[h])
 		if rerr != nil {
@@ -153,6 +213,34 @@ func replayOne(res *vh.Result, st *treeStats, no int, raw []byte, v *treeVec, sa
 				"handler_attr_ids": v.Attrs[h-1], "message_text": clipStr(lr.rs.msg), "got_output": clipStr(string(w.buf)),
 				"got_writes": w.writes, "want_severity": severityName(wantErr), "want_message": clipStr(wantMsg),
 				"problem": problem})
+		}
+		if errSeen {
+			// After a Write error the obligation is the weaker one (a failing
+			// writer is outside the property): the call either behaves as its
+			// own Write demands, or - if the implementation gave up and does not
+			// call Write any more - returns an error and writes nothing.  The
+			// model's prediction (rets) is the sticky json.Encoder's.
+			if w.writes == 0 {
+				if panicked || herr == nil || len(w.buf) > 0 {
+					mism(fmt.Sprintf("after a writer error: Handle did not call Write, so it must return an error and write nothing (got error %v, panic %v, %d bytes)",
+						herr, pv, len(w.buf)), d("neither a line nor an error"))
+				}
+				return
+			}
+			want = armedBefore
+		}
+		switch want {
+		case faultErr, faultShort:
+			errSeen = true
+			if panicked || herr == nil || !errors.Is(herr, errInjected) || len(w.buf) > 0 {
+				mism(fmt.Sprintf("the writer returned an error: Handle must return it (got error %v, panic %v, %d bytes written)", herr, pv, len(w.buf)), d("writer error"))
+			}
+			return
+		case faultPanic:
+			if !panicked || pv != any(panicInjected) {
+				mism(fmt.Sprintf("the writer panicked: the panic must reach the caller (got error %v, panic %v)", herr, pv), d("writer panic"))
+			}
+			return
 		}
 		switch {
 		case panicked:
@@ -224,7 +312,7 @@ func replayOne(res *vh.Result, st *treeStats, no int, raw []byte, v *treeVec, sa
 		}
 	}
 
-	nout := 0
+	nout, nret := 0, 0
 	for i, op := range v.Ops {
 		switch op[0] {
 		case 1:
@@ -253,39 +341,60 @@ func replayOne(res *vh.Result, st *treeStats, no int, raw []byte, v *treeVec, sa
 			hs = append(hs, child)
 			accC = append(accC, concretise(ids, salt, attrTable))
 		case 4, 5:
-			if nout >= len(v.Out) || len(op) < 3 {
-				return fmt.Errorf("vector %d: out too short", no)
+			// A Handle call: rets says how it ends; only a good one has a line in out.
+			if nret >= len(v.Rets) || len(op) < 3 || op[1] >= len(hs) {
+				return fmt.Errorf("vector %d: rets too short or bad op %v", no, op)
 			}
-			pred := v.Out[nout]
-			nout++
-			h := op[1]
-			if pred.H != h || h >= len(hs) || len(pred.Attrs) < pred.N {
-				return fmt.Errorf("vector %d: out does not match ops", no)
+			h, want := op[1], v.Rets[nret]
+			nret++
+			if want != 0 && want != faultErr && want != faultPanic && want != 2 {
+				return fmt.Errorf("vector %d: the specification does not allow result %d", no, want)
 			}
-			// The specification's line: the record's own ids, then the handler's.
-			if fmt.Sprint(pred.Attrs[pred.N:]) != fmt.Sprint(v.Attrs[h-1]) {
-				return fmt.Errorf("vector %d: predicted line is not rec ++ attrs[h]", no)
-			}
+			var lr liveRec
 			if op[0] == 4 {
-				if len(op) < 5 || pred.Lv != op[2] || pred.R != len(live)+1 {
+				r := len(live) + 1
+				if len(op) < 5 || r > len(v.Recs) || op[3] < 0 || op[3] >= len(sizeTable) {
 					return fmt.Errorf("vector %d: bad new-record op %v", no, op)
 				}
 				sum := 0
 				for _, c := range op[4:] {
 					sum += c
 				}
-				if sum != pred.N || op[3] < 0 || op[3] >= len(sizeTable) {
-					return fmt.Errorf("vector %d: record shape %v does not give %d attributes", no, op[4:], pred.N)
+				if sum != len(v.Recs[r-1]) {
+					return fmt.Errorf("vector %d: record shape %v does not give %d attributes", no, op[4:], len(v.Recs[r-1]))
 				}
-				live = append(live, mkRec(op[2], pred.Attrs[:pred.N], op[3], op[4:]))
-				handle(h, live[len(live)-1], pred.Err == 1, fmt.Sprintf("step %d", i+1))
+				live = append(live, mkRec(op[2], v.Recs[r-1], op[3], op[4:]))
+				lr = live[r-1]
 			} else {
-				r := op[2]
-				if r < 1 || r > len(live) || pred.R != r {
+				if op[2] < 1 || op[2] > len(live) {
 					return fmt.Errorf("vector %d: bad re-handle op %v", no, op)
 				}
-				handle(h, live[r-1], pred.Err == 1, fmt.Sprintf("step %d (record %d again)", i+1, r))
+				lr = live[op[2]-1]
 			}
+			isErr := lr.rs.level >= slog.LevelError
+			if want == 2 && errSeen {
+				want = 0 // the model's sticky encoder; handleR applies the weaker obligation
+			} else if want == 2 {
+				return fmt.Errorf("vector %d: the specification predicts a stale error before any writer error", no)
+			} else if want == 0 && !errSeen {
+				if nout >= len(v.Out) {
+					return fmt.Errorf("vector %d: out too short", no)
+				}
+				pred := v.Out[nout]
+				nout++
+				// The specification's line: the record's own ids, then the handler's.
+				if pred.H != h || pred.Lv != int(lr.rs.level) || pred.N != len(lr.ids) ||
+					fmt.Sprint(pred.Attrs) != fmt.Sprint(append(append([]int{}, lr.ids...), v.Attrs[h-1]...)) {
+					return fmt.Errorf("vector %d: predicted line %d is not rec ++ attrs[h]", no, nout)
+				}
+				isErr = pred.Err == 1
+			}
+			handleR(h, lr, isErr, fmt.Sprintf("step %d", i+1), want)
+		case 6:
+			if len(op) != 2 || op[1] < 1 || op[1] > 3 {
+				return fmt.Errorf("vector %d: bad fault op %v", no, op)
+			}
+			w.next = op[1]
 		case 3:
 			h := op[1]
 			var g slog.Handler
@@ -301,8 +410,21 @@ func replayOne(res *vh.Result, st *treeStats, no int, raw []byte, v *treeVec, sa
 		default:
 			return fmt.Errorf("vector %d: unknown op %v", no, op)
 		}
-		observe(fmt.Sprintf("after step %d", i+1), op[1])
+		if stop {
+			break
+		}
+		if w.next == faultNone {
+			observe(fmt.Sprintf("after step %d", i+1), op[1])
+		}
 	}
+	if stop {
+		if wedged != nil {
+			return *wedged
+		}
+		st.vectors.Add(1)
+		return nil // reported; the rest of the path depends on it
+	}
+	w.next = faultNone // an armed fault that no Write of the path met
 	if len(hs)-1 != len(v.Attrs) {
 		return fmt.Errorf("vector %d: %d handlers, %d predicted", no, len(hs)-1, len(v.Attrs))
 	}
@@ -337,6 +459,9 @@ func replayOne(res *vh.Result, st *treeStats, no int, raw []byte, v *treeVec, sa
 		}
 	}
 	st.vectors.Add(1)
+	if wedged != nil {
+		return *wedged
+	}
 	return nil
 }
 
@@ -388,7 +513,7 @@ func replayTree(args []string) error {
 			"replayed": st.vectors.Load(), "read": nread.Load(), "handle_calls": st.handles.Load(),
 			"enabled_checks": st.enabled.Load(), "derivations": st.derives.Load(),
 			"withgroup_panics": st.groupPanics.Load(), "withgroup_supported": st.groupSupported.Load(),
-			"distinct_nontrivial": dd.N(), "aborted_on_hang": hang,
+			"distinct_nontrivial": dd.N(), "aborted_on_hang": hang, "skipped_after_confirmed_wedge": st.skipped.Load(),
 		}
 	}
 	// A call that does not return cannot be interrupted: the watchdog re-runs
@@ -450,6 +575,31 @@ func replayTree(args []string) error {
 				var rerr error
 				if pv, panicked := vh.Try(func() { rerr = replayOne(res, st, j.no, j.raw, &v, salt) }); panicked {
 					rerr = fmt.Errorf("vector %d: harness panic: %v", j.no, pv)
+				}
+				if we, isWedged := rerr.(errWedged); isWedged {
+					// Re-run twice on fresh handlers before concluding anything.
+					again := 0
+					for k := 0; k < 2; k++ {
+						cur[i].Store(&busy{since: time.Now(), j: j})
+						tmp, terr := vh.NewResult(os.DevNull)
+						if terr != nil {
+							break
+						}
+						if _, w2 := replayOne(tmp, &treeStats{}, j.no, j.raw, &v, salt).(errWedged); w2 {
+							again++
+						}
+					}
+					if again == 2 {
+						wedgeConfirmed.Store(true)
+						st.vectors.Add(1)
+						res.Mismatch(fmt.Sprintf("tree thr=%d ops=[%s] wedged", v.Thr, opsKey(v.Ops)),
+							fmt.Sprintf("%s; %s, goroutine state %q, %v, 3 runs out of 3", wedgedWhat, we.where, we.state, wedgeLimit),
+							map[string]any{"stage": "G", "vector": json.RawMessage(j.raw), "vector_no": j.no, "salt": salt,
+								"variant": int((salt >> 8) % nVariants)})
+						rerr = nil
+					} else {
+						rerr = fmt.Errorf("vector %d: a call took more than %v once but not on the re-runs (%v)", j.no, wedgeLimit, we)
+					}
 				}
 				cur[i].Store(nil)
 				if rerr != nil {
